@@ -339,11 +339,16 @@ pub fn explore_mode(a: &RefAuto, probes: &Probes, vocab: &Vocabulary, depth: usi
             ex.transitions += 1;
             match read_word(a, &set, w, probes, &rules) {
                 Read::To(next) => {
+                    let mut p = path.clone();
+                    p.push(w.clone());
                     if !seen.contains_key(&next) {
-                        let mut p = path.clone();
-                        p.push(w.clone());
                         seen.insert(next.clone(), p.clone());
                         q.push_back((next, p));
+                    } else if ex.traces.len() < max_traces + 200 {
+                        // every transition is replayed, not only the first path found into a
+                        // state: after this word the empty cursor word must offer what the target
+                        // state prescribes
+                        ex.traces.push(Trace { path: p, cursor: String::new(), default_wb: true, state: Some(next) });
                     }
                 }
                 Read::Dead => {
